@@ -1,3 +1,4 @@
 import Cgm.Lemmas.AuditCmd
 import Cgm.Props.C12
+import Cgm.Props.C12b
 #audit_namespace Cg.C12
